@@ -391,6 +391,12 @@ func (bldr *BundleBuilder) HopCountBlock(args ...interface{}) *BundleBuilder {
 //   where Data is the payload's data and
 //   BlockControlFlags are _optional_ block processing control flags
 func (bldr *BundleBuilder) PayloadBlock(args ...interface{}) *BundleBuilder {
+	// binary.Write panics for a nil value, e.g., resulting from a JSON null passed to BuildFromMap.
+	if len(args) == 0 || args[0] == nil {
+		bldr.err = fmt.Errorf("PayloadBlock received no data")
+		return bldr
+	}
+
 	var buf bytes.Buffer
 	if err := binary.Write(&buf, binary.LittleEndian, args[0]); err != nil {
 		bldr.err = err
